@@ -159,4 +159,9 @@ def run_step_traces(pid, tier, seed, wd):
                 else:
                     m = re.search(r'<<\s*"DRIFT",\s*"%s",\s*<<([^>]*)>>' % re.escape(c["id"]), out, re.S)
                     drift.append((c["id"], m.group(1).strip() if m else "?", [x["formulas"] for x in c["calls"]]))
-    return {"traced": traced, "accepted": accepted, "events": events, "drift": drift, "states": gs, "distinct": ds}
+    # the same traces against the action-level cache protocol (Cache.tla through Trace_Cache.tla)
+    import cacheprops
+    cache = cacheprops.run_cache_traces(files, wd)
+    gs += cache["states"]
+    ds += cache["distinct"]
+    return {"traced": traced, "accepted": accepted, "events": events, "drift": drift, "states": gs, "distinct": ds, "cache": cache}
